@@ -42,6 +42,7 @@ type leg struct {
 }
 
 var checks = map[string]checkSpec{
+	"C12": {modDir: repoDir + "/godev", pkg: "./cmd/telemetrygodev", test: "TestVerifC12", shards: 8, quickS: 150, thoroS: 900, gomaxp: "4", floor: 500, minClass: 4},
 	"C09": {modDir: repoDir, pkg: "./internal/counter", test: "TestVerifC09", quickS: 150, thoroS: 1200, gomaxp: "2", floor: 20000, minClass: 20,
 		extra: []leg{{repoDir, "./internal/upload", "TestVerifC09Upload", 0}}},
 	"C08": {modDir: repoDir, pkg: "./internal/upload", test: "TestVerifC08", quickS: 240, thoroS: 1500, gomaxp: "2", floor: 3000, minClass: 8},
@@ -204,7 +205,7 @@ func main() {
 			ls = runtime.NumCPU()
 		}
 		n += ls
-		results = append(results, runLeg(li, lbin, lg.test, ls, tier, budget, spec.gomaxp, scratch, outDir)...)
+		results = append(results, runLeg(li, lbin, lg.test, ls, tier, budget, spec.gomaxp, scratch, outDir, filepath.Join(lg.modDir, lg.pkg))...)
 	}
 
 	// Merge.
@@ -368,7 +369,7 @@ func main() {
 
 
 // runLeg runs one harness binary in ls parallel workers and returns their results.
-func runLeg(li int, bin, test string, ls int, tier string, budget int, gmp, scratch, outDir string) []*result {
+func runLeg(li int, bin, test string, ls int, tier string, budget int, gmp, scratch, outDir, pkgDir string) []*result {
 	results := make([]*result, ls)
 	errs := make([]string, ls)
 	var wg sync.WaitGroup
@@ -379,11 +380,11 @@ func runLeg(li int, bin, test string, ls int, tier string, budget int, gmp, scra
 			tag := fmt.Sprintf("leg%d-shard%d", li, i)
 			out := filepath.Join(outDir, tag+".json")
 			cmd := exec.Command(bin, "-test.run", "^"+test+"$", "-test.timeout", "0")
-			cmd.Dir = outDir
+			cmd.Dir = pkgDir // like go test: some packages' TestMain inspects the module from the working directory
 			if gmp == "" {
 				gmp = "2"
 			}
-			cmd.Env = append(os.Environ(), "VERIF_TIER="+tier, fmt.Sprintf("VERIF_SHARD=%d", i), fmt.Sprintf("VERIF_NSHARDS=%d", ls),
+			cmd.Env = append(goEnv(), "VERIF_TIER="+tier, fmt.Sprintf("VERIF_SHARD=%d", i), fmt.Sprintf("VERIF_NSHARDS=%d", ls),
 				"VERIF_OUT="+out, "VERIF_SCRATCH="+scratch, fmt.Sprintf("VERIF_BUDGET_S=%d", budget), "GOMAXPROCS="+gmp, "VERIF_SEED="+os.Getenv("VERIF_SEED"))
 			logf, _ := os.Create(filepath.Join(outDir, tag+".log"))
 			cmd.Stdout, cmd.Stderr = logf, logf
